@@ -276,6 +276,27 @@ class PathEval(object):
         for i, p in enumerate(g.params):
             if i < len(argvals) and argvals[i] is not None:
                 genv[p["n"]] = argvals[i]
+        # known fields of an object handed over by address (&x, or a pointer variable p with known p->f) travel with it
+        cenv = getattr(self, "_cur_env", None)
+        if cenv:
+            for i, p in enumerate(g.params):
+                if i >= len(call["c"]) - 1:
+                    break
+                a = strip(call["c"][1 + i])
+                base = None
+                if a is not None and a["k"] == "Unary" and a["op"] == "&":
+                    base = lv(a["c"][0])
+                    seps = (".",)
+                elif a is not None and lv(a) is not None and cval(a) is None:
+                    base = lv(a)
+                    seps = ("->",)
+                if base:
+                    for k2, v2 in cenv.items():
+                        if k2 not in self.seeded:
+                            continue      # only explicitly seeded fields travel (keeps the callee memo effective)
+                        for sp in seps:
+                            if k2.startswith(base + sp) and v2 is not None:
+                                genv["%s->%s" % (p["n"], k2[len(base) + len(sp):])] = v2
         key = (fn, tuple(sorted(genv.items())))
         if key in self.memo:
             return self.memo[key]
@@ -294,6 +315,7 @@ class PathEval(object):
         return res
 
     def evaluator(self, env):
+        self._cur_env = env
         def hook(c, a):
             k = "@%d" % c["id"]
             if k in env:
